@@ -44,13 +44,17 @@ fn equates_a_unique_column(on: &Expr, left: &Relation, right: &Relation) -> bool
     false
 }
 
-const PROTECTED: [&str; 8] = ["users", "orders", "items", "m", "people", "purchases", "lines", "mm"];
+const PROTECTED: [&str; 12] = ["users", "orders", "items", "m", "people", "purchases", "lines", "mm", "main_users", "main_orders", "main_items", "main_m"];
 
 fn has_protected_table(r: &Relation) -> bool {
     match r {
         Relation::Table(t) => PROTECTED.contains(&t.name()),
         r => r.inputs().iter().any(|i| has_protected_table(i)),
     }
+}
+
+pub fn reads_protected_table(r: &Relation) -> bool {
+    has_protected_table(r)
 }
 
 /// the base-table column a field is a plain copy of (through projections that only rename, joins and group-by
@@ -89,8 +93,8 @@ fn base_column(r: &Relation, field: &str) -> Option<String> {
 /// the link domain of a base column: two rows that agree on columns of one domain belong to the same privacy unit
 fn unit_link(base: &str) -> Option<&'static str> {
     match base {
-        "users.id" | "orders.user_id" | "people.id" | "purchases.user_id" => Some("unit"),
-        "orders.id" | "items.order_id" | "purchases.id" | "lines.order_id" => Some("order"),
+        "users.id" | "orders.user_id" | "people.id" | "purchases.user_id" | "main_users.id" | "main_orders.user_id" => Some("unit"),
+        "orders.id" | "items.order_id" | "purchases.id" | "lines.order_id" | "main_orders.id" | "main_items.order_id" => Some("order"),
         _ => None,
     }
 }
